@@ -141,4 +141,16 @@ PROPS = {
         "assumes": ["LiteFS does not validate the integrity of the imported database beyond its header and length (documented upstream)"],
         "trusted_base": ["Model/PageDB.v op_import/op_export; tie = cases_c16_*.v"],
     },
+    "C17": {
+        "gen": [], "props_file": "Props/C17.v", "coq_targets": ["Props/C17.v"],
+        "level_text": "Proof: for every byte sequence the frames the model of WALReader accepts are exactly the (unique) longest prefix whose salts and cumulative checksums match the header, stated against an inductive file-format predicate; buildTxFrameOffsets returns the frames up to the first commit frame of that prefix, or nothing iff it has no commit frame; the journal segment loop terminates on arbitrary bytes; playback writes only pages 1..original-size except the lock page and restores the pre-image for journals made of pre-images (Props/C17.v). "
+                      "Partial: the restoration theorem assumes SQLite's write-ahead rule (every overwritten page has its record) instead of deriving it from a pager model; multi-segment cut points are enumerated by the harness, not proved. "
+                      "Tie: byte-exact differential runs of the real WALReader / JournalReader against the model on generated, truncated, bit-flipped, stale-salt, zeroed, bad-magic and random files; independent reference reader; Open() on simulator journals cut at every byte-length class (incl. the first transaction of a new database, no-sync and unsynced counts, damaged page numbers) and on arbitrary WAL bytes with and without a log.",
+        "level_note": "Trusted: Coq kernel, harness generators and reference reader. Modelled not verified: litefs.go/db.go text. Real SQLite journals are not used (pager simulator only). The model is of the repaired readers (KNOWN_FINDINGS F2, F3, F18).",
+        "technique": "Coq proof (induction over frames against an inductive format predicate; termination by offset measure) + byte-exact vm_compute correspondence + Open()-level oracle",
+        "rule": "WAL files: header + 0-5 frames at page sizes 512/1024, both byte orders, x {valid, truncated anywhere, bit flip in frames/header, stale-generation salts, zeroed region, bad magic/version, zero file, random}; journals: 1-3 segments, sector 512/1024/4096, counts exact/0/-1, torn final record x {valid, truncated, bit flip, zero header, hostile sector/page size/count, reader page size 0, random}; hot-journal Opens at 14 cut classes; distinct = (kind, sizes, outcome class); non-trivial = reader output compared with model and reference, or Open() result compared with the pre-image",
+        "explanation": "Theorems quantify over all byte strings; correspondence ties the byte-level model to the Go readers.",
+        "assumes": ["SQLite's write-ahead rule for journals", "journal record checksums are the weak SQLite nonce sums (collisions not excluded)"],
+        "trusted_base": ["Model/WalJournal.v hand-written; tie = cases_c17_*.v"],
+    },
 }
